@@ -11,14 +11,13 @@ The driver replays every behaviour on the REAL classes (fresh recording stages p
 ctx.scratch, plain and .gz) and compares after EVERY step: what the call returned, the call counters / sink contents of every
 stage, and kind / stage list (identity) / len / index / str / params of every object built so far (they must never change).
 Nothing about an expectation is computed here: Python only converts values and compares."""
-import collections, gzip, io, itertools, json, os, queue, random, sys
+import collections, gzip, io, json, os, queue, time
 from concurrent.futures import ThreadPoolExecutor
 from .. import tlc, tracecheck
 
 FINISH = dict(level="model_checking",
               rule="a case = one TLC-generated behaviour (a program of joins / Foreach and calls; a call history of queue / disk / list stages; one row of a decision table) replayed on real coba objects in one mode, compared after every step; distinct = distinct (part, configuration, behaviour, mode)")
 
-JOIN_INVARIANTS = ["Shape", "Flattened", "Associative", "GroupingFree", "Lazy", "ExactlyOnce", "FailStop", "InOrder"]
 
 
 # ------------------------------------------------------------------ recording stages (the atoms of PipesAlgebra.tla)
@@ -532,7 +531,6 @@ PART_ACTIONS = {"queue": ["QPut", "QOpen", "QNext", "QBreak", "QFinish"],
 
 
 def run(ctx):
-    rng = random.Random(ctx.seed)
     JC = join_configs(ctx)
     qn = {"queue": ctx.pick(4, 5), "disk": ctx.pick(3, 4), "list": ctx.pick(3, 4), "table": 1}
 
@@ -550,10 +548,10 @@ def run(ctx):
         jobs.append(("guard-join-" + g, {'Variant = "ok"': 'Variant = "%s"' % g, "Atoms <- AtomsTyping": "Atoms <- AtomsPair", "MaxArgs = 5": "MaxArgs = 4"}, 1, False))
     for p, g, _, _ in PART_GUARDS:
         jobs.append(("guard-%s-%s" % (p, g), {'Part = "join"': 'Part = "%s"' % p, 'Variant = "ok"': 'Variant = "%s"' % g, "QN = 4": "QN = %d" % (4 if p == "queue" else 3)}, 1, False))
-    import time as _t; t0 = _t.time()
+    t0 = time.time()
     with ThreadPoolExecutor(max_workers=5) as ex:
         results = dict(ex.map(tlc_job, jobs))
-    ctx.extra["tlc_phase_s"] = round(_t.time() - t0, 1)
+    ctx.extra["tlc_phase_s"] = round(time.time() - t0, 1)
     ctx.extra["action_coverage"] = {name: {a: c[1] for a, c in r.coverage.items() if c[1] and a[0].isupper() and a != "Init"} for name, r in results.items() if r.coverage and not name.startswith("guard-")}
 
     for name, what, expect in [("join-" + g, w, e) for g, w, e in JOIN_GUARDS] + [("%s-%s" % (p, g), w, e) for p, g, w, e in PART_GUARDS]:
